@@ -105,6 +105,7 @@ pub fn corr(run: &mut Run) {
             }
         }
     }
+    reshare_stream(run);
 }
 
 // ------------------------------------------------------------------------------------------------
@@ -417,4 +418,445 @@ fn sample_check(rng: &mut Rng, cc: &ciphercore_base::graphs::Context, ir: &[IrNo
         "theorem p{}_sample : p{}_lhs (R := UInt64) (fun i => {} 0) (fun i j => {} 0) (fun k iv => {} 0) (fun _ => 0) = {} := by decide\n\n",
         k, k, inp_cases.join(" "), sh_cases.join(" "), prf_cases.join(" "), want
     ))
+}
+
+// ------------------------------------------------------------------------------------------------
+// (T9) the resharing planner: `mpc::resharing::get_nodes_to_reshare` against the Lean model
+// `CCV.Reshare.plan` (exact node set) and against the planner-safety oracle computed here.
+// ------------------------------------------------------------------------------------------------
+
+use ciphercore_base::graphs::{create_context, Context, Graph, Node};
+use std::collections::HashSet;
+
+/// which match arm of `compute_graph_resharing` the operation belongs to (own table), and whether the
+/// planner treats the operation as broadcasting
+fn reshare_class(op: &Operation) -> (char, bool) {
+    match op {
+        Operation::Input(_) => ('I', false),
+        Operation::Add | Operation::Subtract | Operation::Stack(_) => ('L', true),
+        Operation::Sum(_)
+        | Operation::CumSum(_)
+        | Operation::Get(_)
+        | Operation::Concatenate(_)
+        | Operation::Reshape(_)
+        | Operation::PermuteAxes(_)
+        | Operation::Zip
+        | Operation::Repeat(_)
+        | Operation::TupleGet(_)
+        | Operation::CreateNamedTuple(_)
+        | Operation::NamedTupleGet(_)
+        | Operation::VectorToArray
+        | Operation::VectorGet
+        | Operation::CreateTuple
+        | Operation::ArrayToVector
+        | Operation::CreateVector(_) => ('L', false),
+        Operation::Multiply | Operation::Matmul | Operation::Gemm(_, _) => ('P', true),
+        Operation::Dot => ('P', false),
+        Operation::Join(_, _)
+        | Operation::JoinWithColumnMasks(_, _)
+        | Operation::Truncate(_)
+        | Operation::A2B
+        | Operation::B2A(_)
+        | Operation::Sort(_)
+        | Operation::GetSlice(_) => ('N', false),
+        Operation::MixedMultiply => ('C', true),
+        Operation::ApplyPermutation(_) => ('C', false),
+        _ => ('X', false),
+    }
+}
+
+struct PlanGraph {
+    cls: Vec<(char, bool)>,
+    deps: Vec<Vec<usize>>,
+    size: Vec<u64>,
+    out: usize,
+    tags: Vec<String>,
+}
+
+fn plan_graph(g: &Graph) -> Result<PlanGraph, String> {
+    let nodes = g.get_nodes();
+    let mut pg = PlanGraph { cls: vec![], deps: vec![], size: vec![], out: 0, tags: vec![] };
+    for (i, n) in nodes.iter().enumerate() {
+        if n.get_id() as usize != i {
+            return Err("node ids are not positions".into());
+        }
+        let op = n.get_operation();
+        pg.cls.push(reshare_class(&op));
+        pg.tags.push(op_tag(&op));
+        pg.deps.push(n.get_node_dependencies().iter().map(|d| d.get_id() as usize).collect());
+        let t = n.get_type().map_err(|e| format!("{}", e))?;
+        pg.size.push(get_size_in_bits(t).map_err(|e| format!("{}", e))?);
+    }
+    pg.out = g.get_output_node().map_err(|e| format!("{}", e))?.get_id() as usize;
+    Ok(pg)
+}
+
+/// the obvious propagation: inputs as annotated; any other node is private iff an operand is private
+/// (VectorGet: iff the vector is; constants have no operands). `None` = the compiler rejects
+/// (private VectorGet index, or an operation the MPC compiler does not take).
+fn propagate_private(g: &Graph, pg: &PlanGraph, is_input_private: &[bool]) -> Option<Vec<bool>> {
+    let mut p = vec![false; pg.cls.len()];
+    let mut k = 0;
+    for (i, n) in g.get_nodes().iter().enumerate() {
+        match n.get_operation() {
+            Operation::Input(_) => {
+                p[i] = *is_input_private.get(k)?;
+                k += 1;
+            }
+            Operation::VectorGet => {
+                if p[pg.deps[i][1]] {
+                    return None;
+                }
+                p[i] = p[pg.deps[i][0]];
+            }
+            Operation::Constant(_, _) | Operation::Zeros(_) | Operation::Ones(_) => {}
+            op => {
+                if reshare_class(&op).0 == 'X' {
+                    return None;
+                }
+                p[i] = pg.deps[i].iter().any(|d| p[*d]);
+            }
+        }
+    }
+    Some(p)
+}
+
+fn encode_plan_graph(pg: &PlanGraph, p: &[bool]) -> String {
+    let mut s = String::new();
+    for i in 0..pg.cls.len() {
+        if i > 0 {
+            s.push('|');
+        }
+        let ds: Vec<u64> = pg.deps[i].iter().map(|d| *d as u64).collect();
+        s += &format!("{}{}{}:{}:{}", pg.cls[i].0, pg.cls[i].1 as u8, p[i] as u8, pg.size[i], show_list(&ds));
+    }
+    s
+}
+
+/// "3-out-of-3 and not reshared", recomputed from the plan the code returned: a private node outside
+/// the plan whose translation is the ABY3 product of two shared operands, or a share-wise (local)
+/// translation of an operand that is itself unreshared.
+fn native_unreshared(pg: &PlanGraph, p: &[bool], plan: &HashSet<usize>) -> Vec<bool> {
+    let mut u = vec![false; p.len()];
+    for i in 0..p.len() {
+        let all_priv_product = pg.cls[i].0 == 'P' && pg.deps[i].iter().all(|d| p[*d]);
+        u[i] = p[i] && !plan.contains(&i) && (all_priv_product || pg.deps[i].iter().any(|d| u[*d]));
+    }
+    u
+}
+
+/// does node i run an interactive protocol that reads replicated (2-out-of-3) operands?
+fn needs_replicated(pg: &PlanGraph, p: &[bool], i: usize) -> bool {
+    p[i] && match pg.cls[i].0 {
+        'N' => true,
+        'P' => pg.deps[i].iter().all(|d| p[*d]),
+        'C' => p[pg.deps[i][1]],
+        _ => false,
+    }
+}
+
+/// one planner case: hook vs model (exact set) + safety oracle on the real graph
+fn reshare_case(run: &mut Run, g: &Graph, pg: &PlanGraph, p: &[bool], descr: &str, consistent: bool) {
+    let nodes = g.get_nodes();
+    let shared: HashSet<Node> = nodes.iter().enumerate().filter(|(i, _)| p[*i]).map(|(_, n)| n.clone()).collect();
+    let enc = encode_plan_graph(pg, p);
+    let r = catch(|| ciphercore_base::mpc::verif_hooks::get_nodes_to_reshare(g, &shared));
+    let plan: HashSet<usize> = match r {
+        Ok(Ok(s)) => s.iter().map(|n| n.get_id() as usize).collect(),
+        Ok(Err(e)) => {
+            run.case(format!("plan {} {}", pg.out, enc), "ERR".into(), false);
+            run.count("reshare:hook-err");
+            if consistent {
+                run.oracle_case(descr, false);
+                run.oracle_fail("C01:reshare:propagation-rejected", format!("{} : the planner rejects the private set obtained by propagating the input annotations: {} ; graph {} {}", descr, trunc(&format!("{}", e), 120), pg.out, enc));
+            }
+            return;
+        }
+        Err(pn) => {
+            run.oracle_case(descr, false);
+            run.oracle_fail("C01:panic:reshare", format!("{} : {} ; graph {} {}", descr, pn, pg.out, enc));
+            return;
+        }
+    };
+    let mut sorted: Vec<u64> = plan.iter().map(|x| *x as u64).collect();
+    sorted.sort();
+    let u = native_unreshared(pg, p, &plan);
+    let u_idx: Vec<u64> = (0..u.len()).filter(|i| u[*i]).map(|i| i as u64).collect();
+    let nontrivial = !sorted.is_empty() || !u_idx.is_empty();
+    run.case(format!("plan {} {}", pg.out, enc), show_list(&sorted), nontrivial);
+    run.case(format!("unres {} {}", pg.out, enc), show_list(&u_idx), nontrivial);
+    run.count(&format!("reshare:plan-size:{}", match sorted.len() { 0 => "0", 1 => "1", 2..=3 => "2-3", _ => ">=4" }));
+    if !u_idx.is_empty() {
+        run.count("reshare:some-node-left-3of3");
+    }
+    // ---- oracle: planner safety on the real graph, from the code's own plan
+    run.oracle_case(descr, nontrivial);
+    let ctx = |what: &str, i: usize| format!("{} : {} at node {} ({}) ; plan {:?} ; graph {} {}", descr, what, i, pg.tags[i], sorted, pg.out, enc);
+    // hypotheses of the Lean theorems hold for real graphs: operands precede, broadcast operands have a size
+    for i in 0..p.len() {
+        if pg.deps[i].iter().any(|d| *d >= i) {
+            run.oracle_fail("C01:reshare:assumption:order", ctx("operand does not precede the node", i));
+        }
+        if pg.cls[i].1 && pg.deps[i].iter().any(|d| pg.size[*d] == 0) {
+            run.oracle_fail("C01:reshare:assumption:zero-size", ctx("broadcasting operation with an operand of 0 bits", i));
+        }
+    }
+    for i in 0..p.len() {
+        if needs_replicated(pg, p, i) {
+            run.count(&format!("reshare:needs-2of3:{}", pg.tags[i]));
+            if let Some(d) = pg.deps[i].iter().find(|d| u[**d]) {
+                run.oracle_fail(&format!("C01:reshare:unreshared-operand:{}", pg.tags[i]), ctx(&format!("operand {} is 3-out-of-3 and not reshared, but the operation reads replicated shares", d), i));
+            }
+        }
+    }
+    if u[pg.out] {
+        run.oracle_fail(&format!("C01:reshare:output-unreshared:{}", pg.tags[pg.out]), ctx("the output node is left 3-out-of-3", pg.out));
+    }
+    if let Some(i) = plan.iter().find(|i| !p[**i]) {
+        run.oracle_fail("C01:reshare:public-node-in-plan", ctx("a public node is reshared", *i));
+    }
+    // minimality as the code intends it (sanity_pass): a reshared node would otherwise be 3-out-of-3.
+    // Known exception (dead code after the output node) is only counted.
+    for i in plan.iter() {
+        let all_priv_product = pg.cls[*i].0 == 'P' && pg.deps[*i].iter().all(|d| p[*d]);
+        if !(all_priv_product || pg.deps[*i].iter().any(|d| u[*d])) {
+            let out_used = pg.deps.iter().any(|ds| ds.contains(&pg.out));
+            if out_used {
+                run.count("reshare:redundant-reshare-after-output");
+            } else {
+                run.oracle_fail("C01:reshare:redundant-reshare", ctx("a node whose operands are all replicated is reshared", *i));
+            }
+        }
+    }
+}
+
+const RS_SHAPES: [&[u64]; 9] = [&[], &[2], &[3], &[2, 3], &[3, 2], &[1, 3], &[2, 1], &[3, 3], &[2, 2, 3]];
+
+/// small plaintext graphs mixing products, local multi-input ops, broadcasting elementwise ops with
+/// operands of different sizes and ops that need replicated operands; the output is any node.
+fn gen_reshare_graph(rng: &mut Rng) -> ciphercore_base::errors::Result<(Context, Graph, String)> {
+    use ciphercore_base::graphs::SliceElement;
+    let c = create_context()?;
+    let g = c.create_graph()?;
+    let st = *rng.pick(&[INT32, UINT64, UINT8, INT64]);
+    let mut descr = String::new();
+    let mut nodes: Vec<Node> = vec![];
+    let n_in = 2 + rng.below(3) as usize;
+    for _ in 0..n_in {
+        let s = rng.pick(&RS_SHAPES).to_vec();
+        let t = if rng.chance(1, 6) { BIT } else { st };
+        nodes.push(g.input(if s.is_empty() { scalar_type(t) } else { array_type(s, t) })?);
+    }
+    let steps = 2 + rng.below(9) as usize;
+    let mut k = 0;
+    let mut attempts = 0;
+    while k < steps && attempts < 200 {
+        attempts += 1;
+        let a = if rng.chance(1, 2) { nodes[nodes.len() - 1].clone() } else { rng.pick(&nodes).clone() };
+        let b = rng.pick(&nodes).clone();
+        let ta = a.get_type()?;
+        let sa: Vec<u64> = if let Type::Array(s, _) = &ta { s.clone() } else { vec![] };
+        let is_arr = matches!(ta, Type::Array(_, _) | Type::Scalar(_));
+        let fresh = |rng: &mut Rng, s: Vec<u64>, t: ScalarType| -> ciphercore_base::errors::Result<Node> {
+            let ty = if s.is_empty() { scalar_type(t) } else { array_type(s, t) };
+            match rng.below(4) {
+                0 => g.zeros(ty),
+                1 => g.ones(ty),
+                _ => g.input(ty),
+            }
+        };
+        let choice = rng.below(30);
+        let r: ciphercore_base::errors::Result<(Node, &str)> = (|| {
+            Ok(match choice {
+                0 | 1 => (a.add(b.clone())?, "Add"),
+                2 => (b.subtract(a.clone())?, "Subtract"),
+                3 | 4 | 5 => (a.multiply(b.clone())?, "Multiply"),
+                6 if is_arr => {
+                    // broadcasting elementwise op with an operand of a different (smaller or larger) size
+                    let s2: Vec<u64> = match rng.below(3) { 0 => vec![], 1 => sa.iter().skip(1).cloned().collect(), _ => { let mut s = vec![2]; s.extend(sa.iter()); s } };
+                    let o = fresh(rng, s2, ta.get_scalar_type())?;
+                    match rng.below(3) { 0 => (a.add(o)?, "Add~"), 1 => (o.subtract(a.clone())?, "Subtract~"), _ => (a.multiply(o)?, "Multiply~") }
+                }
+                7 => (a.dot(b.clone())?, "Dot"),
+                8 => (a.matmul(b.clone())?, "Matmul"),
+                9 => (a.gemm(b.clone(), rng.chance(1, 2), rng.chance(1, 2))?, "Gemm"),
+                10 if sa.len() >= 1 => {
+                    // product with a fresh operand of matching inner dimension
+                    let w = 1 + rng.below(3);
+                    let o = fresh(rng, vec![*sa.last().unwrap(), w], ta.get_scalar_type())?;
+                    if sa.len() >= 2 && rng.chance(1, 2) { (a.matmul(o)?, "Matmul") } else { (a.dot(o)?, "Dot") }
+                }
+                11 => {
+                    let s2 = if rng.chance(1, 2) { sa.clone() } else { vec![] };
+                    let o = fresh(rng, s2, BIT)?;
+                    (a.mixed_multiply(o)?, "MixedMultiply")
+                }
+                12 => (a.mixed_multiply(b.clone())?, "MixedMultiply"),
+                13 => (g.create_tuple(vec![a.clone(), b.clone()])?.tuple_get(rng.below(2))?, "CreateTuple/TupleGet"),
+                14 => (g.create_tuple((0..1 + rng.below(3)).map(|_| rng.pick(&nodes).clone()).collect())?, "CreateTuple"),
+                15 => (g.concatenate(vec![a.clone(), b.clone()], if sa.is_empty() { 0 } else { rng.below(sa.len() as u64) })?, "Concatenate"),
+                16 => {
+                    let same: Vec<Node> = nodes.iter().filter(|n| n.get_type().map(|t| t == ta).unwrap_or(false)).cloned().collect();
+                    let m = 1 + rng.below(3) as usize;
+                    let v: Vec<Node> = (0..m).map(|_| rng.pick(&same).clone()).collect();
+                    (g.stack(v, vec![m as u64])?, "Stack")
+                }
+                17 => (g.stack(vec![a.clone(), b.clone()], vec![2])?, "Stack"),
+                18 => {
+                    let v1 = a.repeat(2)?;
+                    let v2 = b.repeat(2)?;
+                    let z = g.zip(vec![v1, v2])?;
+                    let idx = g.constant(scalar_type(UINT64), Value::from_scalar(rng.below(2), UINT64)?)?;
+                    (z.vector_get(idx)?, "Repeat/Zip/VectorGet")
+                }
+                19 => {
+                    let same: Vec<Node> = nodes.iter().filter(|n| n.get_type().map(|t| t == ta).unwrap_or(false)).cloned().collect();
+                    let v = g.create_vector(ta.clone(), (0..2).map(|_| rng.pick(&same).clone()).collect())?;
+                    if rng.chance(1, 2) { (v.vector_to_array()?, "CreateVector/VectorToArray") } else {
+                        // the index is usually a constant, sometimes an input (private index: the compiler rejects)
+                        let idx = if rng.chance(2, 3) { g.constant(scalar_type(UINT64), Value::from_scalar(rng.below(2), UINT64)?)? } else { g.input(scalar_type(UINT64))? };
+                        (v.vector_get(idx)?, "CreateVector/VectorGet")
+                    }
+                }
+                20 if !sa.is_empty() => (a.array_to_vector()?, "ArrayToVector"),
+                21 if !sa.is_empty() => {
+                    let p = fresh(rng, vec![sa[0]], UINT64)?;
+                    (a.apply_permutation(p)?, "ApplyPermutation")
+                }
+                22 if !sa.is_empty() => (a.sum(vec![rng.below(sa.len() as u64)])?, "Sum"),
+                23 if !sa.is_empty() => match rng.below(4) {
+                    0 => (a.cum_sum(rng.below(sa.len() as u64))?, "CumSum"),
+                    1 => (a.get(vec![rng.below(sa[0])])?, "Get"),
+                    2 => { let n: u64 = sa.iter().product(); (a.reshape(array_type(vec![n], ta.get_scalar_type()))?, "Reshape") }
+                    _ => { let mut p: Vec<u64> = (0..sa.len() as u64).collect(); rng.shuffle(&mut p); (a.permute_axes(p)?, "PermuteAxes") }
+                },
+                24 if !sa.is_empty() => (a.get_slice(vec![SliceElement::SubArray(Some(0), Some(1 + rng.below(sa[0]) as i64), None)])?, "GetSlice"),
+                25 => (a.a2b()?, "A2B"),
+                26 => (a.b2a(st)?, "B2A"),
+                27 => (a.truncate(*rng.pick(&[2u128, 8, 3, 10]))?, "Truncate"),
+                28 => {
+                    let t = g.create_named_tuple(vec![("x".to_owned(), a.clone()), ("y".to_owned(), b.clone())])?;
+                    (t.named_tuple_get(if rng.chance(1, 2) { "x" } else { "y" }.to_owned())?, "NamedTuple")
+                }
+                29 => {
+                    // bits of one operand select the other: a2b → get bit → mixed multiply
+                    let bits = b.a2b()?;
+                    let sb = if let Type::Array(s, _) = bits.get_type()? { s } else { vec![] };
+                    let bit = bits.get_slice(vec![SliceElement::Ellipsis, SliceElement::SingleIndex(rng.below(*sb.last().unwrap_or(&1)) as i64)])?;
+                    (a.mixed_multiply(bit)?, "A2B/GetSlice/MixedMultiply")
+                }
+                _ => return Err(ciphercore_base::runtime_error!("not applicable")),
+            })
+        })();
+        if let Ok((n, name)) = r {
+            if get_size_in_bits(n.get_type()?)? <= 8192 {
+                descr += name;
+                descr.push(' ');
+                nodes.push(n);
+                k += 1;
+            }
+        }
+    }
+    // output: usually the last node, sometimes any node (nodes behind the output are dead code)
+    let all = g.get_nodes();
+    let out = if rng.chance(3, 4) { all[all.len() - 1].clone() } else { rng.pick(&all).clone() };
+    out.set_as_output()?;
+    g.finalize()?;
+    g.set_as_main()?;
+    c.finalize()?;
+    Ok((c, g, descr))
+}
+
+pub fn reshare_stream(run: &mut Run) {
+    run.rule += " | reshare stream: plaintext graphs (the generator families after prepare_context, and a dedicated generator mixing \
+                 private×private products, local multi-input ops, broadcasting elementwise ops with operands of different sizes, \
+                 ops needing replicated operands, any node as output) × random input annotations → private set by re-implemented \
+                 propagation → hook get_nodes_to_reshare; compared node-set-for-node-set with the Lean planner model, plus the safety \
+                 oracle (no 3-out-of-3 operand where replicated shares are read; output never 3-out-of-3; plan ⊆ private) recomputed \
+                 natively from the code's plan; a smaller stream feeds arbitrary (inconsistent) private sets. Non-trivial: the plan or \
+                 the set of nodes left 3-out-of-3 is non-empty.";
+    let mut rng = run.rng("reshare");
+    // (1) dedicated generator
+    let n_small = run.tier.scale(1500, 20000);
+    for it in 0..n_small {
+        let (_c, g, descr) = match catch(|| gen_reshare_graph(&mut rng)) {
+            Ok(Ok(x)) => x,
+            _ => {
+                run.count("reshare:gen-failed");
+                continue;
+            }
+        };
+        let pg = match plan_graph(&g) {
+            Ok(p) => p,
+            Err(_) => {
+                run.count("reshare:export-failed");
+                continue;
+            }
+        };
+        for t in &pg.tags {
+            run.count(&format!("reshare:op:{}", t));
+        }
+        let n_inputs = pg.cls.iter().filter(|c| c.0 == 'I').count();
+        for v in 0..3 {
+            let priv_in: Vec<bool> = (0..n_inputs).map(|_| if v == 0 { true } else { rng.chance(2, 3) }).collect();
+            let d = format!("reshare small#{} [{}] private_inputs={:?}", it, descr.trim_end(), priv_in.iter().map(|b| *b as u8).collect::<Vec<_>>());
+            match propagate_private(&g, &pg, &priv_in) {
+                Some(p) => reshare_case(run, &g, &pg, &p, &d, true),
+                None => run.count("reshare:propagation-rejects"),
+            }
+        }
+        if it % 4 == 0 {
+            // arbitrary private set (the hook takes any set): model must agree, incl. errors
+            let p: Vec<bool> = (0..pg.cls.len()).map(|_| rng.chance(1, 2)).collect();
+            let d = format!("reshare small#{} [{}] arbitrary private set", it, descr.trim_end());
+            reshare_case(run, &g, &pg, &p, &d, false);
+        }
+    }
+    // (2) the C01 families, prepared the way compile_context prepares them
+    let n_fam = run.tier.scale(60, 600);
+    for it in 0..n_fam {
+        let fam = match catch(|| match it % 15 {
+            1 => join_family(&mut rng, &[ciphercore_base::graphs::JoinType::Inner, ciphercore_base::graphs::JoinType::Left, ciphercore_base::graphs::JoinType::Union, ciphercore_base::graphs::JoinType::Full]),
+            2 => sort_family(&mut rng),
+            _ => gen_family(&mut rng, it % 10 == 0),
+        }) {
+            Ok(Ok(f)) => f,
+            _ => {
+                run.count("reshare:gen-failed");
+                continue;
+            }
+        };
+        let mode = rng.below(3) as u8;
+        let prepared = catch(|| -> ciphercore_base::errors::Result<Context> {
+            Ok(ciphercore_base::mpc::mpc_compiler::prepare_context(fam.ctx.clone(), inline_cfg(mode), ciphercore_base::evaluators::simple_evaluator::SimpleEvaluator::new(None)?, false)?.get_context())
+        });
+        let c2 = match prepared {
+            Ok(Ok(c)) => c,
+            _ => {
+                run.count("reshare:prepare-failed");
+                continue;
+            }
+        };
+        let g = match c2.get_main_graph() {
+            Ok(g) => g,
+            _ => continue,
+        };
+        let pg = match plan_graph(&g) {
+            Ok(p) => p,
+            Err(_) => {
+                run.count("reshare:export-failed");
+                continue;
+            }
+        };
+        run.count(&format!("reshare:family:{}", fam.name));
+        let n_inputs = pg.cls.iter().filter(|c| c.0 == 'I').count();
+        for v in 0..3 {
+            let priv_in: Vec<bool> = (0..n_inputs).map(|_| if v == 0 { true } else { rng.chance(2, 3) }).collect();
+            let d = format!("reshare family {} [{}] mode={} nodes={} private_inputs={:?}", fam.name, fam.descr, mode, pg.cls.len(), priv_in.iter().map(|b| *b as u8).collect::<Vec<_>>());
+            match propagate_private(&g, &pg, &priv_in) {
+                Some(p) => reshare_case(run, &g, &pg, &p, &d, true),
+                None => run.count("reshare:propagation-rejects"),
+            }
+        }
+    }
 }
